@@ -208,6 +208,8 @@ VIEW_LINES = {
     'newer_message': '  -> wl_display@1.frobnicate(1)',
     'extra_argument': '  -> wl_display@1.sync(new id wl_callback@9, 5)',
     'orphan': '  -> zz_q@77.foo(1)',
+    'empty_title': '  -> xdg_toplevel@9.set_title("")',
+    'empty_app_id': '  -> xdg_toplevel@9.set_app_id("")',
     'chatter': None,
 }
 
@@ -236,6 +238,9 @@ def eval_views(case):
             s.cmd('connection ' + nm)
             per[nm] = listing('*')
         s.cmd('connection all')
+        again_msgs, again_total = listing('*')
+        if (again_msgs, again_total) != (all_msgs, all_total):
+            V.append(Violation('list.changes_after_selecting', case, {'before_selecting': all_msgs, 'after_connection_all': again_msgs}))
         union = sorted(x for nm in names for x in per[nm][0])
         d = {'all_connections_view': all_msgs, 'per_connection_views': {nm: per[nm][0] for nm in names}}
         if union != sorted(all_msgs):
@@ -250,6 +255,39 @@ def eval_views(case):
     kinds = {k for _, k in case['lines']}
     return Eval(V, outcome=[sorted(kinds), len(V)], nontrivial=bool(kinds & {'del_unknown', 'newer_message', 'extra_argument', 'orphan'}),
                 transitions=len(case['lines']) + 4)
+
+
+TITLES = ['a b', 'a  b', 'a\tb', ' a b', 'a b ']
+
+
+def eval_quoted_blanks(case):
+    """Blanks inside a quoted string of a matcher typed as a command are part of the string."""
+    V = []
+    try:
+        s = sut.Session()
+        s.feed_line('[1000.000]  -> wl_display@1.get_registry(new id wl_registry@2)')
+        shown = {}
+        for n, t in enumerate(case['titles']):
+            o, _ = s.feed_line('[1000.%03d]  -> xdg_toplevel@9.set_title("%s")' % (n + 1, TITLES[t]))
+            shown.setdefault(t, []).extend(x for x in o if outparse.classify(x)[0] == 'message')
+        want = shown.get(case['ask'], [])
+        for q in ('list ("%s")', 'list   .set_title("%s")  ', 'list\t(title="%s")'):
+            o, e = s.cmd(q % TITLES[case['ask']])
+            got = [x for x in o if outparse.classify(x)[0] == 'message']
+            if got != want or e:
+                V.append(Violation('list.quoted_blanks', case, {'query': q % TITLES[case['ask']], 'expected': want, 'observed': got, 'err': e}))
+                break
+    except Exception:
+        V.append(sut.exc_violation(case))
+    return Eval(V, outcome=[case['ask'], len(V)], nontrivial=case['ask'] in case['titles'], transitions=len(case['titles']) + 3)
+
+
+def gen_quoted_blanks(tier):
+    import itertools
+    for L in (2, 3):
+        for titles in itertools.product(range(len(TITLES)), repeat=L):
+            for ask in range(len(TITLES)):
+                yield {'titles': list(titles), 'ask': ask}
 
 
 def gen_views(tier):
@@ -284,6 +322,8 @@ def run(run, tier, seed):
     run.add_part('long_history', res)
     res = explore.prod(lambda: gen_views(tier), eval_views, seed=seed, bound={'lines': 3 if tier == 'quick' else 4, 'line_kinds': list(VIEW_LINES)})
     run.add_part('views_of_the_record', res)
+    res = explore.prod(lambda: gen_quoted_blanks(tier), eval_quoted_blanks, seed=seed, bound={'titles': TITLES})
+    run.add_part('blanks_inside_quoted_strings', res)
     run.rule = ('histories {0,1,12,universe messages} x current filter x selected connection x matcher x cap; each query '
                 'issued three times around a different query; non-trivial = a cap >= 1 on a non-empty history')
     run.bound = res.bound
@@ -298,4 +338,6 @@ def replay(case):
         return eval_long_history(case).viols
     if 'lines' in case:
         return eval_views(case).viols
+    if 'titles' in case:
+        return eval_quoted_blanks(case).viols
     return evaluate(case).viols
